@@ -9,7 +9,8 @@ from ..core import enc
 
 RULE = ("accepted vectors of every version x {sort} x {minimal}: as_json() after a JSON round trip validated against "
         "the pinned official schema by an exact-arithmetic validator (failing schema locations identify a finding); "
-        "JSON compared model-vs-code; distinct = distinct (version, vector, options)")
+        "JSON compared model-vs-code; distinct = distinct (version, vector, options)"
+        " + special families; accepted edited strings (incl. enclosing pairs, case variants); a failing vectorString echo is classified by the Lean grammar")
 ASSUMPTIONS = ["official schemas: pinned copies under tools/schemas", "multipleOf is evaluated exactly (a float is read as the decimal its repr shows)"]
 SCHEMA = {"2": "2.0", "3.0": "3.0", "3.1": "3.1", "4": "4.0"}
 
@@ -185,7 +186,7 @@ def replay(data):
     r = data["replay"]
     o, e = obs.construct(r["ver"], r["s"])
     if o is None:
-        return False, "rejected %s" % e
+        return obs.rejected_verdict(r["ver"], r["s"], e)
     key = r["ver"] if r["ver"] != "3" else r["s"][5:8]
     d = json.loads(json.dumps(o.as_json(sort=r["sort"], minimal=r["minimal"])))
     errs = sorted(set(jschema.validate(jschema.load(SCHEMA[key]), d)))
